@@ -91,7 +91,8 @@ def run_unit(unit_tpl, mode, workdir, modules=None, rlimit=None, seed=None, tag=
     g = gen.process(unit_tpl, {mode})
     res.g = g
     base = os.path.splitext(os.path.basename(unit_tpl))[0]
-    path = os.path.join(workdir, '%s_%s%s%s.rs' % (base, mode, tag, ('_' + only[0] + '_' + '_'.join(only[1])) if only else ''))
+    suffix = re.sub(r'[^A-Za-z0-9]', 'x', ('_' + only[0] + '_' + '_'.join(only[1])) if only else '')   # never repeat a function name verbatim in the crate name
+    path = os.path.join(workdir, '%s_%s%s%s.rs' % (base, mode, tag, suffix))
     with open(path, 'w') as f:
         f.write(g.text())
     res.gen_path = path
